@@ -84,7 +84,7 @@ func era(unixLocal int64) string {
 
 // C20 — scalar conversions exact over each type's documented range.
 func C20(c *vk.Ctx) {
-	c.Rule("every Date (65536) and every Date32 day 1900-01-01..2299-12-31 x 4 times of day x 29 fixed zones; DateTime seconds (quick: all multiples of 3600 +-1 and range ends; thorough: all 2^32); DateTime64 at precisions 0..9 over a lattice of year starts, range ends, epoch and UnixNano limits +-1 tick with aligned and unaligned sub-second parts; wide-integer helpers on a boundary lattice checked against math/big two's complement; IPv4 (quick: 6^4 byte lattice + stride 65537; thorough: all 2^32), IPv6 lattice; every one of these instants also enters the matching column through Append, AppendArr, Array.Append, Nullable.Append and Nullable.AppendArr (dates: all 4 times of day in one zone per day, cycling through the zones) and must store what the scalar conversion gives and read back what the scalar back-conversion gives; Interval.Add for every scale x {0,+-1,+-13} x dates with day<=28, x values that span the whole documented range and sit around the 292-year limit of time.Duration, and around the daylight-saving transitions of Europe/Berlin (calendar units keep the wall clock). A case is non-trivial when it is a distinct (function, input) pair; all are distinct by construction.")
+	c.Rule("every Date (65536) and every Date32 day 1900-01-01..2299-12-31 x 4 times of day x 29 fixed zones; DateTime seconds (quick: all multiples of 3600 +-1 and range ends; thorough: all 2^32); DateTime64 at precisions 0..9 over a lattice of year starts, range ends, epoch and UnixNano limits +-1 tick with aligned and unaligned sub-second parts; wide-integer helpers on a boundary lattice checked against math/big two's complement; IPv4 (quick: 6^4 byte lattice + stride 65537; thorough: all 2^32), IPv6 lattice plus the special-purpose blocks (IPv4-compatible, IPv4-mapped, NAT64, 6to4, link-local, multicast, documentation) x a 6^4 lattice of 32-bit tails, compared as exact netip.Addr values; every one of these instants also enters the matching column through Append, AppendArr, Array.Append, Nullable.Append and Nullable.AppendArr (dates: all 4 times of day in one zone per day, cycling through the zones) and must store what the scalar conversion gives and read back what the scalar back-conversion gives; Interval.Add for every scale x {0,+-1,+-13} x dates with day<=28, x values that span the whole documented range and sit around the 292-year limit of time.Duration, and around the daylight-saving transitions of Europe/Berlin (calendar units keep the wall clock). A case is non-trivial when it is a distinct (function, input) pair; all are distinct by construction.")
 	c20Dates(c)
 	c20DateTime(c)
 	c20DateTime64(c)
@@ -657,6 +657,35 @@ func c20IP(c *vk.Ctx) {
 			}
 		}
 		c.DistinctN(16 * 5 * 4) // fill==v duplicates across positions are not counted
+		// the address blocks with a meaning of their own (IPv4-compatible, IPv4-mapped, NAT64,
+		// 6to4, link-local, multicast, loopback / unspecified neighbourhood) x a lattice of 32-bit
+		// tails: the value must come back as exactly the 128-bit address it is (an IPv4-mapped
+		// address is not the IPv4 address), print as one, and survive the way back
+		prefixes := [][12]byte{
+			{}, {10: 0xff, 11: 0xff}, {0, 0x64, 0xff, 0x9b}, {0x20, 0x02, 1, 2, 3, 4}, {0xfe, 0x80}, {0xff, 0x02},
+			{0x20, 0x01, 0x0d, 0xb8}, {10: 0xff, 11: 0xfe}, {9: 1, 10: 0xff, 11: 0xff},
+		}
+		tl := []byte{0, 1, 10, 0x7f, 0x80, 0xff}
+		for _, pf := range prefixes {
+			for _, b0 := range tl {
+				for _, b1 := range tl {
+					for _, b2 := range tl {
+						for _, b3 := range tl {
+							var a proto.IPv6
+							copy(a[:], pf[:])
+							a[12], a[13], a[14], a[15] = b0, b1, b2, b3
+							want := netip.AddrFrom16(a)
+							ip := a.ToIP()
+							if ip != want || ip.Is4() || ip.BitLen() != 128 || proto.ToIPv6(ip) != a || a.String() != want.String() || proto.ToIPv6(want).ToIP() != want {
+								c.Violation("C20/IPv6/special-block", fmt.Sprintf("IPv6/%x", a[:]), fmt.Sprintf("%x: ToIP()=%v (is4=%v, %d bits) String()=%q, want the 128-bit address %v; back: %x", a[:], ip, ip.Is4(), ip.BitLen(), a.String(), want, proto.ToIPv6(ip)), nil)
+							}
+							c.Eval("IPv6", 1)
+							c.DistinctN(1)
+						}
+					}
+				}
+			}
+		}
 		// IPv4-mapped form and a plain v4 address through ToIPv6
 		v4 := netip.MustParseAddr("1.2.3.4")
 		m := proto.ToIPv6(v4)
